@@ -61,6 +61,7 @@ type Contract struct {
 	Lock      string          // informational
 	AssumePre []string        // labels of callee preconditions that are environment assumptions in this function (e.g. conformant traffic)
 	Reveal    map[string]bool // opaque specification functions whose definition this function's proof may use
+	DeadReturns int           // deadreturns N: at most N returns may be proved unreachable (dead code under the precondition)
 	GhostIncs []GhostInc      // ghostinc "name" expr: on entry the named ghost counter of the object is incremented
 	Lemmas    []Lemma         // intermediate assertions proved just before the listed calls and assumed afterwards
 	SortLen   int             // sortlen 3: sort.Sort calls in this function sort exactly three elements (checked)
@@ -133,7 +134,7 @@ type ContractTable struct {
 	FuncType map[string]*Contract // named function type -> assumed contract of every value of that type
 }
 
-var kwRe = regexp.MustCompile(`^(func|trusted func|iface|pure func|hfunc|ufunc|axiom|requires|ensures|assumes|modifies|loop|invariant|safety|let|letold|noinline|params|lock|sortlen|static|functype|assumepre|lemma|reveal|ghostinc)\b`)
+var kwRe = regexp.MustCompile(`^(func|trusted func|iface|pure func|hfunc|ufunc|axiom|requires|ensures|assumes|modifies|loop|invariant|safety|let|letold|noinline|params|lock|sortlen|static|functype|assumepre|lemma|reveal|ghostinc|deadreturns)\b`)
 var tagRe = regexp.MustCompile(`^\[([A-Za-z0-9_,.\- ]+)\]\s*`)
 
 type rawLine struct {
@@ -292,6 +293,11 @@ func (p *Program) parseContractFile(pkg *packages.Package, file string) error {
 			if cur != nil {
 				cur.SortLen, _ = strconv.Atoi(rest)
 			}
+		case "deadreturns":
+			if cur == nil {
+				return fail("deadreturns outside contract")
+			}
+			cur.DeadReturns, _ = strconv.Atoi(strings.TrimSpace(rest))
 		case "ghostinc":
 			if cur == nil {
 				return fail("ghostinc outside contract")
